@@ -93,6 +93,7 @@ struct ObjBase {
     uint64_t peer = 0;            // serial of the object this one was moved into
     uint8_t peer_flags = 0;       // 1: the move was long -> short target
     uint64_t parent = 0;          // serial of the object this one was derived from (const operation result)
+    bool survived_throw = false;  // was target / rvalue argument of an operation that threw (probe: used again later)
 };
 
 template <class T> struct BufObj : ObjBase {
